@@ -34,7 +34,10 @@ def Kind.kids : Kind → List Nat
   | .enable c => [c]
   | .disable c => [c]
   | .action _ c => [c]
+  | .control _ c => [c]
   | .state _ c => [c]
+  | .ifApply c _ => [c]
+  | .applyR _ => []
 
 /-- A hidden `internal::must< Rule >` node. -/
 def isMustNode (g : Grammar) (m : Nat) : Bool :=
@@ -108,6 +111,8 @@ def Kind.covered : Kind → Bool
   | .disable _ => true
   | .action _ _ => true
   | .state _ _ => true
+  | .ifApply _ _ => true
+  | .applyR _ => true
   | _ => false
 
 /-- Every node of the table has a kind with traits (implied by `problems (abstract g) = 0`, because
@@ -433,11 +438,24 @@ theorem kinds_sound (hg : cx.g = g) (hwf : WF g) (hwrap : ∀ i nd, cx.g[i]? = s
     simp only [Kind.kids, List.mem_singleton, forall_eq] at hkids hlt'
     have := ih f (Nat.le_refl _) _ c b hu.single hkids
     exact kind_action cx this.1 this.2
+  | control kc c =>
+    simp only [traitOf] at hu
+    simp only [Kind.kids, List.mem_singleton, forall_eq] at hkids hlt'
+    have := ih f (Nat.le_refl _) _ c b hu.single hkids
+    exact kind_control cx this.1 this.2
   | state d c =>
     simp only [traitOf] at hu
     simp only [Kind.kids, List.mem_singleton, forall_eq] at hkids hlt'
     have := ih f (Nat.le_refl _) _ c b hu.single hkids
     exact kind_state cx this.1 this.2
+  | ifApply c acts =>
+    simp only [traitOf] at hu
+    simp only [Kind.kids, List.mem_singleton, forall_eq] at hkids hlt'
+    have := ih f (Nat.le_refl _) _ c b hu.single hkids
+    exact kind_ifApply cx this.1 this.2
+  | applyR acts =>
+    simp only [traitOf] at hu
+    exact ⟨kind_applyR cx L acts, fun hb => absurd hb (by simp [hu.1])⟩
   | ifMust dflt cond mn =>
     simp only [traitOf] at hu
     simp only [Kind.linksOK] at hlinks
